@@ -965,7 +965,12 @@ class Interp:
         con = self.cfg.contracts.get(q)
         is_top_entry = (q == self.cfg.top and self.depth == 0)
         if con is not None and not is_top_entry and not force_inline:
-            return con.apply(self, fv, env)
+            path = cur()
+            prev, path.in_source = path.in_source, False
+            try:
+                return con.apply(self, fv, env)
+            finally:
+                path.in_source = prev
         if self.depth >= self.cfg.max_depth:
             raise Unsupported(f"inlining depth exceeded at {q}")
         if any(d not in ("staticmethod", "classmethod", "abstractmethod", "cached_property", "property",
@@ -974,12 +979,15 @@ class Interp:
         fr = Frame(fv.mod, env, fv, fv.cls, recv if recv is not None else (args[0] if fv.cls and args else None))
         self.depth += 1
         self.call_stack.append(q)
+        path = cur()
+        prev, path.in_source = path.in_source, True
         try:
             self.exec_block(fv.node.body, fr)
             return None
         except _Return as r:
             return r.v
         finally:
+            path.in_source = prev
             self.depth -= 1
             self.call_stack.pop()
 
